@@ -214,6 +214,197 @@ Qed.
 
 End Rebase.
 
+(* ---------- the creation of a new empty head at NextOffset (rollover of Publish; the first steps of a Delete that
+   removes the newest message of the writing segment): the log file appears first, then its index file; neither
+   changes what the directory holds, and the directory stays well formed after each step *)
+
+Section CreateHead.
+Variables (pre : list seg) (hd : seg) (v : ver) (tmp : tmpfiles).
+Hypothesis HD : DirInv (pre ++ [hd]).
+Hypothesis Hne : srecs hd <> [].
+
+Let n := recs_next hd.
+Let d0 := mkDir (pre ++ [hd]) tmp.
+
+Lemma ins_seg_end y : forall l, (forall q, In q l -> sbase q < sbase y) -> ins_seg y l = l ++ [y].
+Proof.
+  induction l as [|a l IH]; intros Hl; [reflexivity|]. cbn [ins_seg app].
+  pose proof (Hl a (or_introl eq_refl)). destruct (sbase y <? sbase a) eqn:E; [lia|]. f_equal. apply IH. intros q Hq. apply Hl. now right.
+Qed.
+
+Lemma head_base_lt_next : sbase hd < n.
+Proof.
+  destruct HD as [HF _]. apply Forall_app in HF. destruct HF as [_ HF]. inversion HF as [|? ? Hhd _]; subst.
+  unfold n. destruct (srecs hd) as [|m0 r0] eqn:Er; [congruence|].
+  assert (moff m0 = sbase hd) by (destruct Hhd as (_ & _ & Hfb & _); unfold first_is_base in Hfb; now rewrite Er in Hfb).
+  pose proof (recs_lt_next hd m0 Hhd ltac:(rewrite Er; left; reflexivity)). lia.
+Qed.
+
+Lemma bases_lt_next q : In q (pre ++ [hd]) -> sbase q < n.
+Proof.
+  intros Hq. pose proof head_base_lt_next as Hh. apply in_app_or in Hq. destruct Hq as [Hq|[<-|[]]]; [|exact Hh].
+  destruct HD as [_ Hch]. destruct (in_split _ _ Hq) as (a & b & ->). rewrite <- app_assoc in Hch. cbn [app] in Hch.
+  apply chain_ok_app_r in Hch. pose proof (chain_base_lt q (b ++ [hd]) hd Hch ltac:(apply in_or_app; right; now left)). lia.
+Qed.
+
+Lemma new_seg_inv idx : (forall iv items, idx = Some (iv, items) -> items = []) -> seg_inv (mkSeg n v [] idx).
+Proof.
+  intros Hix. destruct HD as [HF _]. apply Forall_app in HF. destruct HF as [_ HF]. inversion HF as [|? ? Hhd _]; subst.
+  repeat split; cbn.
+  - intros i j a b Hi. unfold znth in Hi. destruct (i <? 0); [discriminate|]. destruct (Z.to_nat i); discriminate.
+  - contradiction.
+  - intros iv items E. left. eapply Hix; eassumption.
+  - now apply recs_next_nonneg.
+Qed.
+
+Lemma with_new_head idx : (forall iv items, idx = Some (iv, items) -> items = []) ->
+  DirInv ((pre ++ [hd]) ++ [mkSeg n v [] idx]) /\ abs_dir ((pre ++ [hd]) ++ [mkSeg n v [] idx]) = abs_dir (pre ++ [hd]).
+Proof.
+  intros Hix. pose proof HD as [HF Hch]. split; [split|].
+  - apply Forall_app. split; [exact HF|]. constructor; [now apply new_seg_inv|constructor].
+  - apply chain_ok_snoc; [exact Hch| | |exact Hne]; cbn [sbase].
+    + apply head_base_lt_next.
+    + intros m Hm. apply Forall_app in HF. destruct HF as [_ HF]. inversion HF as [|? ? Hhd _]; subst. now apply recs_lt_next.
+  - unfold abs_dir. rewrite !last_opt_app. f_equal.
+    rewrite all_recs_app. unfold all_recs at 2. cbn. now rewrite app_nil_r.
+Qed.
+
+Lemma create_head_states k :
+  dsegs (fs_run d0 (firstn k (create_head n v))) =
+  match k with
+  | O => pre ++ [hd]
+  | S O => (pre ++ [hd]) ++ [mkSeg n v [] None]
+  | _ => (pre ++ [hd]) ++ [mkSeg n v [] (Some (v, []))]
+  end.
+Proof.
+  assert (E1 : ins_seg (mkSeg n v [] None) (pre ++ [hd]) = (pre ++ [hd]) ++ [mkSeg n v [] None]).
+  { apply ins_seg_end. intros q Hq. cbn [sbase]. now apply bases_lt_next. }
+  assert (E2 : upd_seg ((pre ++ [hd]) ++ [mkSeg n v [] None]) n (fun s => set_idx s (Some (sver s, []))) =
+               (pre ++ [hd]) ++ [mkSeg n v [] (Some (v, []))]).
+  { apply (upd_seg_mid (pre ++ [hd]) (mkSeg n v [] None) [] n); [reflexivity|].
+    intros x Hx. pose proof (bases_lt_next x Hx). lia. }
+  destruct k as [|[|[|k]]]; unfold create_head, fs_run, d0; cbn [firstn fold_left fs_exec dsegs dtmp]; rewrite ?E1, ?E2; reflexivity.
+Qed.
+
+(* after any prefix of the two steps: well formed, and the same log *)
+Theorem create_head_crash_safe k :
+  let d := fs_run d0 (firstn k (create_head n v)) in
+  DirInv (dsegs d) /\ abs_dir (dsegs d) = abs_dir (pre ++ [hd]).
+Proof.
+  cbv zeta. rewrite create_head_states. destruct k as [|[|k]].
+  - split; [exact HD|reflexivity].
+  - apply with_new_head. intros iv items E. discriminate.
+  - apply with_new_head. intros iv items E. injection E as _ <-. reflexivity.
+Qed.
+
+End CreateHead.
+
+(* Publish: the only directory steps are those of a rollover, and they are exactly create_head at NextOffset *)
+Theorem publish_prog_crash_safe c st k :
+  Inv st -> opened st = Some c ->
+  let d := fs_run (mkDir (segs st) (mkTmp None None)) (firstn k (publish_prog st)) in
+  DirInv (dsegs d) /\ abs_dir (dsegs d) = abs st.
+Proof.
+  intros HI Hc. cbv zeta. unfold publish_prog. rewrite Hc.
+  pose proof HI as (Hne & HF & Hch & Hv & c' & Hc' & Hhead). rewrite Hc in Hc'. injection Hc' as <-.
+  assert (HD : DirInv (segs st)) by (split; assumption).
+  assert (Hnone : DirInv (dsegs (fs_run (mkDir (segs st) (mkTmp None None)) (firstn k []))) /\
+                  abs_dir (dsegs (fs_run (mkDir (segs st) (mkTmp None None)) (firstn k []))) = abs st).
+  { rewrite firstn_nil. split; [exact HD|reflexivity]. }
+  destruct (cro c) eqn:Hro; [exact Hnone|]. specialize (Hhead eq_refl).
+  destruct (last_opt (segs st)) as [hd|] eqn:Ehd; [|exact Hnone].
+  destruct (needs_rollover c hd) eqn:Er; [|exact Hnone].
+  destruct (@exists_last _ (segs st) Hne) as (pre & hd' & Esegs).
+  assert (hd' = hd) by (rewrite Esegs, last_opt_app in Ehd; now injection Ehd). subst hd'.
+  assert (Hhd_inv : seg_inv hd) by (rewrite Forall_forall in HF; apply HF; rewrite Esegs; apply in_or_app; right; left; reflexivity).
+  assert (Hrecs_ne : srecs hd <> []).
+  { unfold needs_rollover in Er. destruct (srecs hd); [rewrite andb_false_r in Er; discriminate|discriminate]. }
+  assert (Hnxt : idx_next hd (head_items hd) = recs_next hd).
+  { destruct Hhead as (iv & items & Hsi & Hm). unfold head_items. rewrite Hsi. apply idx_next_recs.
+    apply seg_inv_seg_ok; assumption. }
+  rewrite Hnxt. rewrite abs_dir_abs. rewrite Esegs in *.
+  apply (create_head_crash_safe pre hd (cnewver c) (mkTmp None None) HD Hrecs_ne k).
+Qed.
+
+(* ---------- Delete in the WRITING segment when the newest message goes (repair F8: the new empty head is created at
+   NextOffset before the old files are swapped or removed, so NextOffset survives every crash point) *)
+
+Lemma fs_run_app d a b : fs_run d (a ++ b) = fs_run (fs_run d a) b.
+Proof. unfold fs_run. apply fold_left_app. Qed.
+
+Lemma create_head_tmp d n v k : dtmp (fs_run d (firstn k (create_head n v))) = dtmp d.
+Proof. destruct k as [|[|[|k]]]; reflexivity. Qed.
+
+Section HeadDelete.
+Variables (pre : list seg) (hd : seg) (v : ver).
+Hypothesis HD : DirInv (pre ++ [hd]).
+Hypothesis Hne : srecs hd <> [].
+
+Let n := recs_next hd.
+Let nh := mkSeg n v [] (Some (v, [])).
+
+Lemma after_create tmp : fs_run (mkDir (pre ++ [hd]) tmp) (create_head n v) = mkDir (pre ++ hd :: [nh]) tmp.
+Proof.
+  pose proof (create_head_states pre hd v tmp HD Hne 2) as Hs. pose proof (create_head_tmp (mkDir (pre ++ [hd]) tmp) n v 2) as Ht.
+  change (dsegs (fs_run (mkDir (pre ++ [hd]) tmp) (create_head n v)) = (pre ++ [hd]) ++ [nh]) in Hs.
+  change (dtmp (fs_run (mkDir (pre ++ [hd]) tmp) (create_head n v)) = tmp) in Ht.
+  destruct (fs_run (mkDir (pre ++ [hd]) tmp) (create_head n v)) as [sg tm].
+  cbn [dsegs dtmp] in Hs, Ht. subst sg tm. rewrite <- app_assoc. reflexivity.
+Qed.
+
+Lemma HD2 : DirInv (pre ++ hd :: [nh]) /\ abs_dir (pre ++ hd :: [nh]) = abs_dir (pre ++ [hd]).
+Proof.
+  destruct (with_new_head pre hd v HD Hne (Some (v, []))) as [A B].
+  { intros iv items E. injection E as _ <-. reflexivity. }
+  rewrite <- app_assoc in A, B. exact (conj A B).
+Qed.
+
+(* every message of the writing segment is deleted *)
+Theorem head_all_crash_safe tmp k :
+  crash_ok (pre ++ [hd]) (pre ++ [nh]) (fs_run (mkDir (pre ++ [hd]) tmp) (firstn k (prog_head_all (sbase hd) n v))).
+Proof.
+  destruct HD2 as [HDn Habs].
+  destruct k as [|k]; [split; [exact HD|now left]|].
+  unfold prog_head_all. cbn [firstn]. change (RemoveTmp :: ?l) with ([RemoveTmp] ++ l). rewrite fs_run_app.
+  change (fs_run (mkDir (pre ++ [hd]) tmp) [RemoveTmp]) with (mkDir (pre ++ [hd]) (mkTmp None None)).
+  rewrite firstn_app. cbn [length create_head].
+  destruct (Nat.le_gt_cases k 2) as [Hk|Hk].
+  - replace (k - 2)%nat with O by lia. cbn [firstn]. rewrite app_nil_r.
+    destruct (create_head_crash_safe pre hd v (mkTmp None None) HD Hne k) as [A B]. split; [exact A|left; exact B].
+  - rewrite (firstn_all2 (n:=k)) by (cbn; lia). rewrite fs_run_app.
+    fold (create_head n v). rewrite after_create.
+    pose proof (drop_crash_safe pre [nh] hd (mkTmp None None) HDn ltac:(discriminate) (S (k - 2))) as [A B].
+    assert (E : fs_run (mkDir (pre ++ hd :: [nh]) (mkTmp None None)) (firstn (S (k - 2)) (prog_drop (sbase hd))) =
+                fs_run (mkDir (pre ++ hd :: [nh]) (mkTmp None None)) (firstn (k - 2) [RemoveIndex (sbase hd); RemoveLog (sbase hd)])).
+    { unfold prog_drop. cbn [firstn]. change (RemoveTmp :: ?l) with ([RemoveTmp] ++ l). rewrite fs_run_app. reflexivity. }
+    rewrite E in A, B. split; [exact A|]. rewrite Habs in B. exact B.
+Qed.
+
+(* the first message of the writing segment survives, the newest does not: new head, then the in-place swap *)
+Section TailOverride.
+Variables (keep : list msg) (p : params).
+Hypothesis Hkeep_sub : forall m, In m keep -> In m (srecs hd).
+Hypothesis Hkeep_sorted : recs_sorted keep.
+Hypothesis Hkeep_first : match keep with [] => False | m :: _ => moff m = sbase hd end.
+
+Let ix := (sver hd, derive H p (sver hd) keep).
+
+Theorem head_tail_override_crash_safe k :
+  crash_ok (pre ++ [hd]) (pre ++ mkSeg (sbase hd) (sver hd) keep (Some ix) :: [nh])
+           (fs_run (mkDir (pre ++ [hd]) (mkTmp (Some keep) (Some ix))) (firstn k (prog_head_tail_override (sbase hd) n v))).
+Proof.
+  destruct HD2 as [HDn Habs]. unfold prog_head_tail_override. rewrite firstn_app. cbn [length create_head].
+  destruct (Nat.le_gt_cases k 2) as [Hk|Hk].
+  - replace (k - 2)%nat with O by lia. cbn [firstn]. rewrite app_nil_r.
+    destruct (create_head_crash_safe pre hd v (mkTmp (Some keep) (Some ix)) HD Hne k) as [A B]. split; [exact A|left; exact B].
+  - rewrite (firstn_all2 (n:=k)) by (cbn; lia). rewrite fs_run_app. fold (create_head n v). rewrite after_create.
+    pose proof (override_crash_safe pre [nh] hd keep p HDn Hkeep_sub Hkeep_sorted Hkeep_first (k - 2)) as [A B].
+    split; [exact A|]. rewrite Habs in B. exact B.
+Qed.
+
+End TailOverride.
+End HeadDelete.
+
 (* ---------- after the crash: Open with Recover (or any other mode) of what the in-place swap or the removal left *)
 
 Theorem reopen_after_crash before after d c0 st' :
